@@ -264,8 +264,6 @@ def _case_history(p, ctx):
                 return True
         if cfg["diff"] == "centered_differences" and space.has_equal_bounds:
             ctx.cls("class_centered_differences_equal_bounds")
-            if ctx.known(K_CENTERED_EQUAL):
-                return True
         return False
 
     def compare_columns(poly, exp_ret):
@@ -328,6 +326,12 @@ def _case_history(p, ctx):
         stats["jac_requests"] += 1
         phys = model.physical(fn_input)
         exp_ret, exp_rec = model.expected_jacobians(poly, phys)
+        if cfg["diff"] == "centered_differences" and space.has_equal_bounds:
+            # a component whose bounds coincide cannot be perturbed inside its bounds: both centred perturbations
+            # vanish and the approximated (and recorded) derivative w.r.t. it is zero (former defect C01-F4: NaN)
+            exp_ret, exp_rec = exp_ret.copy(), exp_rec.copy()
+            exp_ret[:, space.equal] = 0.0
+            exp_rec[:, space.equal] = 0.0
         tol_ret, tol_rec = model.jac_tols(poly, phys, exp_ret, exp_rec)
         cols = compare_columns(poly, exp_ret)
         dense = as_dense(got)
